@@ -764,15 +764,22 @@ class Link(SimComponent):
             receiver = self.endpoint_b
         frame_size = frame.size_Mbits
 
+        # Load the frame size on the link before it is delivered, so that anything sent across this link while the
+        # frame is being handled (e.g. the reply to it) is admitted against a load that already includes it.
+        load_before = self.current_load
+        self.current_load = load_before + frame_size
         if receiver.receive_frame(frame):
             # Frame transmitted successfully
-            # Load the frame size on the link
-            self.current_load += frame_size
             _LOGGER.debug(
                 f"Added {frame_size:.3f} Mbits to {self}, current load {self.current_load:.3f} Mbits "
                 f"({self.current_load_percent})"
             )
             return True
+        # Frame was not taken by the receiver, it does not count towards the load
+        if self.current_load == load_before + frame_size:
+            self.current_load = load_before
+        else:
+            self.current_load = max(self.current_load - frame_size, 0.0)
         return False
 
     def __str__(self) -> str:
